@@ -55,6 +55,23 @@ where
         true
     }
 
+    /// Stop addressing a session (remove its channel sender and its membership in the topic's
+    /// session set) but remember which topic it belongs to.
+    ///
+    /// Used when the receiving end of the session's channel was closed: events the session
+    /// emitted before it ended can still be pending and need the topic to be handled.
+    ///
+    /// Returns true if the session had a sender which was removed.
+    pub fn close(&mut self, session_id: u64) -> bool {
+        let Some(topic) = self.session_topic_map.get(&session_id) else {
+            return false;
+        };
+        if let Some(sessions) = self.topic_session_map.get_mut(topic) {
+            sessions.remove(&session_id);
+        }
+        self.session_tx_map.remove(&session_id).is_some()
+    }
+
     /// Get the topic for a session id.
     ///
     /// Returns None of the session id was not known.
